@@ -4,11 +4,18 @@ import (
 	"bufio"
 	"bytes"
 	"context"
+	"crypto/ecdsa"
+	"crypto/elliptic"
+	"crypto/rand"
+	"crypto/tls"
+	"crypto/x509"
+	"crypto/x509/pkix"
 	"encoding/hex"
 	"encoding/json"
 	"fmt"
 	"io"
 	"log"
+	"math/big"
 	"net"
 	"net/http"
 	"net/http/httptest"
@@ -31,25 +38,71 @@ import (
 // configuration; the event bus of the BackendServer is replaced by a recorder (a rejected
 // request must not publish anything), the throttler by a recorder (no sleeping).
 // Backend URLs are written with the placeholder hosts H1/H2 in the ops; at execution they
-// are two fake Nextcloud servers that record what the signaling server sends them.
+// are two fake Nextcloud servers that record what the signaling server sends them.  Both
+// listen on 127.0.0.1 (same host name, different ports) and speak http and https on the
+// same port; N1/N2 are the same two servers under the name `localhost` (other host name,
+// same port).  A fake answers a signed request with the next redirect of the op's script
+// (`rd=`), if there is one.
+//
+// A case may reload the configuration of the running server (`reload`: static storage
+// Reload(file), etcd storage key updates/deletions); the ops after it are judged by the
+// file loaded last.  The backend tokens carry the own secret of the section, `cs=` the
+// common `[backend] secret`.
 
 type vc02Backend struct {
 	id, url string // url with placeholder host
-	secret  []byte
+	secret  []byte // the secret in force for it by the configuration it is part of (own, else the common one)
+	common  bool   // the section has no own secret
 }
 
-func (b vc02Backend) tok() string { return b.id + ":" + vx(b.secret) }
+func (b vc02Backend) tok() string {
+	if b.common {
+		return b.id + ":x"
+	}
+	return b.id + ":" + vx(b.secret)
+}
 
 type vc02Cfg struct {
 	mode     string // backends | etcd | compat | allowall
 	backends []vc02Backend
 	compat   *vc02Backend
+	common   []byte   // [backend] secret (mode backends)
+	pool     []string // generator only: urls a backend may be added with
+}
+
+// fix gives the backends without own secret the common one.
+func (c *vc02Cfg) fix() *vc02Cfg {
+	for i := range c.backends {
+		if c.backends[i].common {
+			c.backends[i].secret = c.common
+		}
+	}
+	return c
+}
+
+func (c *vc02Cfg) clone() *vc02Cfg {
+	d := *c
+	d.backends = append([]vc02Backend{}, c.backends...)
+	return &d
+}
+
+// configured: the backends that have a secret (a section without any is not a backend).
+func (c *vc02Cfg) configured() []vc02Backend {
+	var l []vc02Backend
+	for _, b := range c.backends {
+		if len(b.secret) > 0 {
+			l = append(l, b)
+		}
+	}
+	return l
 }
 
 // byUrl: the configuration consists of backends with urls (from the configuration file, or from etcd).
 func (c *vc02Cfg) byUrl() bool { return c.mode == "backends" || c.mode == "etcd" }
 
-func (c *vc02Cfg) op() string {
+func (c *vc02Cfg) op() string { return c.opAs("cfg") }
+
+func (c *vc02Cfg) opAs(verb string) string {
 	ct, bt := "-", "-"
 	if c.compat != nil {
 		ct = c.compat.tok()
@@ -66,7 +119,11 @@ func (c *vc02Cfg) op() string {
 	for _, b := range c.backends {
 		us = append(us, b.id+"="+b.url)
 	}
-	return fmt.Sprintf("cfg %s %s u=%s", ct, bt, vEnc(c.mode+";"+strings.Join(us, ";")))
+	cs := ""
+	if len(c.common) > 0 {
+		cs = " cs=" + vx(c.common)
+	}
+	return fmt.Sprintf("%s %s %s%s u=%s", verb, ct, bt, cs, vEnc(c.mode+";"+strings.Join(us, ";")))
 }
 
 // ---------- recorders ----------
@@ -136,41 +193,146 @@ func (t *vc02Throttler) take() int {
 // ---------- fake Nextcloud ----------
 
 type vc02Received struct {
-	path             string
+	url              string // scheme://host/path as received, placeholder host
+	post             bool
 	random, checksum string
 	body             []byte
 }
 
-type vc02Fake struct {
-	srv *httptest.Server
-	mu  sync.Mutex
-	got []vc02Received
+type vc02Hop struct {
+	code int
+	loc  string // placeholder host
 }
 
-func newVC02Fake() *vc02Fake {
+var (
+	vc02TLSOnce sync.Once
+	vc02TLSCfg  *tls.Config
+)
+
+func vc02TLS() *tls.Config {
+	vc02TLSOnce.Do(func() {
+		key, err := ecdsa.GenerateKey(elliptic.P256(), rand.Reader)
+		if err != nil {
+			panic(err)
+		}
+		tmpl := &x509.Certificate{SerialNumber: big.NewInt(1), Subject: pkix.Name{CommonName: "verif"},
+			NotBefore: time.Now().Add(-time.Hour), NotAfter: time.Now().Add(48 * time.Hour),
+			KeyUsage: x509.KeyUsageDigitalSignature, ExtKeyUsage: []x509.ExtKeyUsage{x509.ExtKeyUsageServerAuth},
+			DNSNames: []string{"localhost"}, IPAddresses: []net.IP{net.ParseIP("127.0.0.1")}}
+		der, err := x509.CreateCertificate(rand.Reader, tmpl, tmpl, &key.PublicKey, key)
+		if err != nil {
+			panic(err)
+		}
+		vc02TLSCfg = &tls.Config{Certificates: []tls.Certificate{{Certificate: [][]byte{der}, PrivateKey: key}}}
+	})
+	return vc02TLSCfg
+}
+
+// vc02Listener hands out plain or TLS connections depending on the first byte the client sends
+// (0x16 = TLS handshake): one port serves http and https.
+type vc02Listener struct {
+	net.Listener
+	ch   chan net.Conn
+	done chan struct{}
+}
+
+type vc02PeekConn struct {
+	net.Conn
+	br *bufio.Reader
+}
+
+func (c *vc02PeekConn) Read(p []byte) (int, error) { return c.br.Read(p) }
+
+func newVC02Listener(inner net.Listener) *vc02Listener {
+	l := &vc02Listener{Listener: inner, ch: make(chan net.Conn), done: make(chan struct{})}
+	go func() {
+		defer close(l.done)
+		for {
+			c, err := inner.Accept()
+			if err != nil {
+				return
+			}
+			go func() {
+				br := bufio.NewReader(c)
+				c.SetReadDeadline(time.Now().Add(10 * time.Second)) // nolint
+				b, err := br.Peek(1)
+				if err != nil {
+					c.Close()
+					return
+				}
+				c.SetReadDeadline(time.Time{}) // nolint
+				var conn net.Conn = &vc02PeekConn{Conn: c, br: br}
+				if b[0] == 0x16 {
+					conn = tls.Server(conn, vc02TLS())
+				}
+				select {
+				case l.ch <- conn:
+				case <-l.done:
+					c.Close()
+				}
+			}()
+		}
+	}()
+	return l
+}
+
+func (l *vc02Listener) Accept() (net.Conn, error) {
+	select {
+	case c := <-l.ch:
+		return c, nil
+	case <-l.done:
+		return nil, net.ErrClosed
+	}
+}
+
+type vc02Fake struct {
+	srv *httptest.Server
+}
+
+// newVC02Fake: a server that records every request carrying a checksum (and every POST) with the url it
+// was received at, and answers it with the next redirect of the world's script, else with a valid reply.
+func newVC02Fake(w *vc02World) *vc02Fake {
 	f := &vc02Fake{}
-	f.srv = httptest.NewServer(http.HandlerFunc(func(w http.ResponseWriter, r *http.Request) {
-		if r.Method != "POST" {
+	f.srv = httptest.NewUnstartedServer(http.HandlerFunc(func(rw http.ResponseWriter, r *http.Request) {
+		sum := r.Header.Get(HeaderBackendSignalingChecksum)
+		if r.Method != "POST" && sum == "" {
 			// capabilities and the like: not a signed backend request
-			http.Error(w, "not found", http.StatusNotFound)
+			http.Error(rw, "not found", http.StatusNotFound)
 			return
 		}
 		body, _ := io.ReadAll(r.Body)
-		f.mu.Lock()
-		f.got = append(f.got, vc02Received{path: r.URL.Path, random: r.Header.Get(HeaderBackendSignalingRandom),
-			checksum: r.Header.Get(HeaderBackendSignalingChecksum), body: body})
-		f.mu.Unlock()
-		w.Header().Set("Content-Type", "application/json")
-		w.Write([]byte(`{"ocs":{"meta":{"status":"ok","statuscode":200,"message":"OK"},"data":{"type":"room","room":{"version":"1.0","roomid":"r1"}}}}`)) // nolint
+		scheme := "http"
+		if r.TLS != nil {
+			scheme = "https"
+		}
+		w.mu.Lock()
+		w.got = append(w.got, vc02Received{url: scheme + "://" + w.unsubst(r.Host) + r.URL.Path, post: r.Method == "POST",
+			random: r.Header.Get(HeaderBackendSignalingRandom), checksum: sum, body: body})
+		var hop *vc02Hop
+		if len(w.script) > 0 {
+			hop = &vc02Hop{}
+			*hop = w.script[0]
+			w.script = w.script[1:]
+		}
+		w.mu.Unlock()
+		if hop != nil {
+			rw.Header().Set("Location", w.subst(hop.loc))
+			rw.WriteHeader(hop.code)
+			return
+		}
+		rw.Header().Set("Content-Type", "application/json")
+		rw.Write([]byte(`{"ocs":{"meta":{"status":"ok","statuscode":200,"message":"OK"},"data":{"type":"room","room":{"version":"1.0","roomid":"r1"}}}}`)) // nolint
 	}))
+	f.srv.Listener = newVC02Listener(f.srv.Listener)
+	f.srv.Start()
 	return f
 }
 
-func (f *vc02Fake) take() []vc02Received {
-	f.mu.Lock()
-	defer f.mu.Unlock()
-	g := f.got
-	f.got = nil
+func (w *vc02World) take() []vc02Received {
+	w.mu.Lock()
+	defer w.mu.Unlock()
+	g := w.got
+	w.got = nil
 	return g
 }
 
@@ -186,7 +348,10 @@ type vc02World struct {
 	conn   net.Conn
 	br     *bufio.Reader
 	fakes  [2]*vc02Fake
-	hosts  map[string]string // H1 -> 127.0.0.1:port
+	hosts  map[string]string // H1 -> 127.0.0.1:port, N1 -> localhost:port
+	mu     sync.Mutex
+	got    []vc02Received // what the fakes received, in the order of arrival
+	script []vc02Hop      // the redirects the fakes answer with next
 	// mode etcd: the storage the server was started with (put back before closing)
 	startStorage BackendStorage
 }
@@ -198,13 +363,18 @@ func (w *vc02World) subst(s string) string {
 	return s
 }
 
-func newVC02World(c *vc02Cfg) *vc02World {
-	w := &vc02World{cfg: c, hosts: map[string]string{}}
-	for i := range w.fakes {
-		w.fakes[i] = newVC02Fake()
-		u, _ := url.Parse(w.fakes[i].srv.URL)
-		w.hosts[fmt.Sprintf("H%d", i+1)] = u.Host
+// unsubst: the placeholder of a host as a fake saw it in the Host header.
+func (w *vc02World) unsubst(host string) string {
+	for k, v := range w.hosts {
+		if v == host {
+			return k
+		}
 	}
+	return host
+}
+
+// config writes the configuration file of c.
+func (w *vc02World) config(c *vc02Cfg) *goconf.ConfigFile {
 	config := goconf.NewConfigFile()
 	switch c.mode {
 	case "backends":
@@ -212,9 +382,14 @@ func newVC02World(c *vc02Cfg) *vc02World {
 		for _, b := range c.backends {
 			ids = append(ids, b.id)
 			config.AddOption(b.id, "url", w.subst(b.url))
-			config.AddOption(b.id, "secret", string(b.secret))
+			if !b.common {
+				config.AddOption(b.id, "secret", string(b.secret))
+			}
 		}
 		config.AddOption("backend", "backends", strings.Join(ids, ", "))
+		if len(c.common) > 0 {
+			config.AddOption("backend", "secret", string(c.common))
+		}
 	case "etcd":
 		// no backend in the configuration file: the backends arrive as etcd keys, see below
 	case "compat":
@@ -225,10 +400,61 @@ func newVC02World(c *vc02Cfg) *vc02World {
 		config.AddOption("backend", "secret", string(c.compat.secret))
 	}
 	config.AddOption("backend", "allowhttp", "true")
+	config.AddOption("backend", "skipverify", "true") // the fakes' certificate is self-signed
 	config.AddOption("sessions", "hashkey", "12345678901234567890123456789012")
 	config.AddOption("sessions", "blockkey", "09876543210987654321098765432109")
 	config.AddOption("clients", "internalsecret", "verif-internal-secret")
 	config.AddOption("geoip", "url", "none")
+	return config
+}
+
+func (w *vc02World) etcdValue(b vc02Backend) []byte {
+	val, err := json.Marshal(map[string]string{"url": w.subst(b.url), "secret": string(b.secret)})
+	if err != nil {
+		panic(err)
+	}
+	return val
+}
+
+func vc02KeyOrder(bs []vc02Backend) []vc02Backend {
+	keys := append([]vc02Backend{}, bs...)
+	sort.SliceStable(keys, func(i, j int) bool { return keys[i].id < keys[j].id })
+	return keys
+}
+
+// reload makes the running server load configuration c: the static storage through Reload(file), the etcd
+// storage through the key events that lead from the current keys to those of c (deletions, then one update per key in key order).
+func (w *vc02World) reload(c *vc02Cfg) {
+	switch c.mode {
+	case "backends":
+		w.hub.backend.Reload(w.config(c))
+	case "etcd":
+		st := w.hub.backend.backends.storage.(*backendStorageEtcd)
+		for _, o := range vc02KeyOrder(w.cfg.backends) {
+			found := false
+			for _, b := range c.backends {
+				found = found || b.id == o.id
+			}
+			if !found {
+				st.EtcdKeyDeleted(nil, o.id, nil)
+			}
+		}
+		for _, b := range vc02KeyOrder(c.backends) {
+			st.EtcdKeyUpdated(nil, b.id, w.etcdValue(b), nil)
+		}
+	}
+	w.cfg = c
+}
+
+func newVC02World(c *vc02Cfg) *vc02World {
+	w := &vc02World{cfg: c, hosts: map[string]string{}}
+	for i := range w.fakes {
+		w.fakes[i] = newVC02Fake(w)
+		u, _ := url.Parse(w.fakes[i].srv.URL)
+		w.hosts[fmt.Sprintf("H%d", i+1)] = u.Host
+		w.hosts[fmt.Sprintf("N%d", i+1)] = "localhost:" + u.Port()
+	}
+	config := w.config(c)
 	nc, err := NewLoopbackNatsClient()
 	if err != nil {
 		panic(err)
@@ -256,14 +482,8 @@ func newVC02World(c *vc02Cfg) *vc02World {
 			backendStorageCommon: backendStorageCommon{backends: make(map[string][]*Backend)},
 			keyInfos:             make(map[string]*BackendInformationEtcd),
 		}
-		keys := append([]vc02Backend{}, c.backends...)
-		sort.SliceStable(keys, func(i, j int) bool { return keys[i].id < keys[j].id })
-		for _, b := range keys {
-			val, err := json.Marshal(map[string]string{"url": w.subst(b.url), "secret": string(b.secret)})
-			if err != nil {
-				panic(err)
-			}
-			st.EtcdKeyUpdated(nil, b.id, val, nil)
+		for _, b := range vc02KeyOrder(c.backends) {
+			st.EtcdKeyUpdated(nil, b.id, w.etcdValue(b), nil)
 		}
 		w.startStorage = w.hub.backend.backends.storage
 		w.hub.backend.backends.storage = st
@@ -438,11 +658,130 @@ func vc02GenCfg(r *vRand) *vc02Cfg {
 		}
 		c.backends = append(c.backends, vc02Backend{id: fmt.Sprintf("b%d", i+1), url: u, secret: sec})
 	}
+	c.pool = layout
 	if r.chance(2, 5) {
 		// the same backends, announced through etcd (keys b1, b2, …) instead of the configuration file
 		c.mode = "etcd"
+	} else if r.chance(1, 3) {
+		// a common `[backend] secret`; some sections have no own secret and use it
+		if !r.chance(1, 8) {
+			c.common = vc02Secret(r)
+		} // else: there is none, and a section without own secret is not a backend
+		for i := range c.backends {
+			c.backends[i].common = r.chance(1, 2)
+		}
+		c.fix()
+		if len(c.configured()) == 0 {
+			c.backends[0].common, c.backends[0].secret = false, secrets[0]
+		}
 	}
 	return c
+}
+
+// vc02Mutate: the configuration an administrator might load next — secrets rotated (the common one, a backend's own),
+// a backend switched between own and common secret, backends removed, added, re-ordered, their secrets or urls swapped.
+func vc02Mutate(r *vRand, c *vc02Cfg) *vc02Cfg {
+	d := c.clone()
+	static := d.mode == "backends"
+	for n := 1 + r.intn(2); n > 0; n-- {
+		nb := len(d.backends)
+		switch r.intn(12) {
+		case 0, 11:
+			if static {
+				d.common = vc02Secret(r)
+				uses := false
+				for _, b := range d.backends {
+					uses = uses || b.common
+				}
+				if !uses && nb > 0 {
+					d.backends[r.intn(nb)].common = true
+				}
+			}
+		case 1:
+			if nb > 0 {
+				i := r.intn(nb)
+				d.backends[i].common, d.backends[i].secret = false, vc02Secret(r)
+			}
+		case 2:
+			if static && nb > 0 {
+				i := r.intn(nb)
+				if d.backends[i].common {
+					d.backends[i].common, d.backends[i].secret = false, vc02Secret(r)
+				} else {
+					d.backends[i].common = true
+					if len(d.common) == 0 && r.chance(3, 4) {
+						d.common = vc02Secret(r)
+					}
+				}
+			}
+		case 3:
+			if nb > 0 {
+				i := r.intn(nb)
+				d.backends = append(d.backends[:i:i], d.backends[i+1:]...)
+			}
+		case 4:
+			if nb < 3 {
+				var free []string
+				for _, u := range d.pool {
+					used := false
+					for _, b := range d.backends {
+						used = used || strings.TrimSuffix(b.url, "/") == strings.TrimSuffix(u, "/")
+					}
+					if !used {
+						free = append(free, u)
+					}
+				}
+				id := ""
+				for k := 1; id == ""; k++ {
+					id = fmt.Sprintf("b%d", k)
+					for _, b := range d.backends {
+						if b.id == id {
+							id = ""
+							break
+						}
+					}
+				}
+				if len(free) > 0 {
+					nbk := vc02Backend{id: id, url: free[r.intn(len(free))], secret: vc02Secret(r)}
+					i := r.intn(nb + 1)
+					d.backends = append(d.backends[:i:i], append([]vc02Backend{nbk}, d.backends[i:]...)...)
+				}
+			}
+		case 5:
+			if nb >= 2 {
+				i, j := r.intn(nb), r.intn(nb)
+				bi, bj := d.backends[i], d.backends[j]
+				d.backends[i].secret, d.backends[i].common = bj.secret, bj.common
+				d.backends[j].secret, d.backends[j].common = bi.secret, bi.common
+			}
+		case 6:
+			if static {
+				for i := nb - 1; i > 0; i-- {
+					j := r.intn(i + 1)
+					d.backends[i], d.backends[j] = d.backends[j], d.backends[i]
+				}
+			}
+		case 7:
+			if static {
+				d.common = nil
+			}
+		case 8:
+			// the same file again
+		case 9:
+			if r.chance(1, 3) {
+				d.backends = nil
+			}
+		case 10:
+			if nb >= 2 {
+				i, j := r.intn(nb), r.intn(nb)
+				d.backends[i].url, d.backends[j].url = d.backends[j].url, d.backends[i].url
+			}
+		}
+	}
+	if !static {
+		d.backends = vc02KeyOrder(d.backends) // the etcd storage holds the backends of a host in key order
+	}
+	return d.fix()
 }
 
 // vc02Legal reports whether b may appear in an HTTP header field value as Go's server accepts it.
@@ -540,7 +879,7 @@ func vc02Owner(c *vc02Cfg, u string) string {
 		return "-"
 	}
 	uc := vc02Components(u)
-	for _, b := range c.backends {
+	for _, b := range c.configured() {
 		bc := vc02Components(b.url)
 		if len(bc) > len(uc) {
 			continue
@@ -601,7 +940,8 @@ func vC02Gen(e *vEnv, r *vRand) []vCase {
 		c := vc02GenCfg(rr)
 		shiftCase := i >= n
 		ops := []string{c.op()}
-		all := append([]vc02Backend{}, c.backends...)
+		var refs []vc02Ref
+		all := c.configured()
 		if c.compat != nil {
 			all = append(all, *c.compat)
 		}
@@ -626,6 +966,7 @@ func vC02Gen(e *vEnv, r *vRand) []vCase {
 			// the checksum is computed by the generator with the real function (and again by `sign` at execution)
 			sum := CalculateBackendChecksum(random, body, signer.secret)
 			ops = append(ops, fmt.Sprintf("sign %s %s %s %s", label, signer.id, vx([]byte(random)), vx(body)))
+			refs = append(refs, vc02Ref{label: label, signer: signer, random: random, body: body, sum: sum})
 			ht, hv := hdrFor(signer)
 			base := vc02Req{label: label, hdrTok: ht, hdrVal: hv, random: random, checksum: sum, body: body,
 				ct: "application/json", room: "room1", tag: "valid"}
@@ -716,6 +1057,17 @@ func vC02Gen(e *vEnv, r *vRand) []vCase {
 				q.checksum, q.tag = CalculateBackendChecksum(random, body, o.secret), "other-secret"
 				add(q)
 			}
+			// a section without any secret is not a backend
+			for _, o := range c.backends {
+				if len(o.secret) == 0 {
+					q = base
+					q.hdrTok, q.hdrVal, q.tag = vc02Owner(c, o.url), o.url, "claims-section-without-secret"
+					add(q)
+					q.checksum = CalculateBackendChecksum(random, body, nil)
+					q.tag = "claims-section-without-secret-empty-key"
+					add(q)
+				}
+			}
 			// unknown / malformed backend header
 			for _, hv := range []string{"http://H3.invalid/", "::not a url::", "http://H1/other/", "ftp://H1/one/"} {
 				if c.mode == "allowall" {
@@ -786,41 +1138,281 @@ func vC02Gen(e *vEnv, r *vRand) []vCase {
 		}
 		// outgoing: every request kind to every backend; in mode backends also to urls next to a backend's
 		if c.mode != "allowall" {
-			kinds := []string{"auth", "room-join", "room-leave", "ping", "session-add", "session-remove"}
-			outOp := func(kind, id, base string) string {
-				if !c.byUrl() {
-					return fmt.Sprintf("out %s %s", kind, id)
-				}
-				return fmt.Sprintf("out %s %s u=%s", kind, id, vEnc(strings.TrimSuffix(base, "/")+vc02BackendPath))
-			}
-			for _, b := range all {
-				if strings.HasPrefix(b.url, "https:") {
-					continue // the fake backends speak plain http
-				}
-				for _, k := range kinds {
+			for _, b := range c.backends {
+				for _, k := range vc02Kinds {
 					if e.thorough() || rr.chance(1, 2) {
-						ops = append(ops, outOp(k, b.id, b.url))
+						ops = append(ops, vc02OutOp(k, vc02OutOwner(c, b.url), b.url, nil))
 					}
 				}
-				if c.byUrl() {
-					_, near := vc02UrlVariants(b.url)
-					for _, nu := range near {
-						if strings.HasPrefix(nu, "https:") || !(e.thorough() || rr.chance(1, 2)) {
-							continue
-						}
-						id := "-"
-						if t := vc02Owner(c, nu+vc02BackendPath); t != "?" {
-							id = t[2:]
-						}
-						ops = append(ops, outOp(kinds[rr.intn(len(kinds))], id, nu))
+				_, near := vc02UrlVariants(b.url)
+				for _, nu := range near {
+					if e.thorough() || rr.chance(1, 2) {
+						ops = append(ops, vc02OutOp(vc02Kinds[rr.intn(len(vc02Kinds))], vc02OutOwner(c, nu), nu, nil))
+					}
+				}
+			}
+			if c.compat != nil {
+				for _, k := range vc02Kinds {
+					if e.thorough() || rr.chance(1, 2) {
+						ops = append(ops, vc02OutOp(k, c.compat.id, "http://H1/nextcloud", nil))
 					}
 				}
 			}
 			ops = append(ops, "out auth -")
 		}
+		// the running server loads other configurations
+		if c.byUrl() && !shiftCase && rr.chance(1, 2) {
+			lab := len(refs)
+			cur := c
+			for round := 1 + rr.intn(3); round > 0; round-- {
+				next := vc02Mutate(rr, cur)
+				ops = append(ops, vc02AfterReload(e, rr, cur, next, &refs, &lab)...)
+				cur = next
+			}
+		}
 		cases = append(cases, vCase{Ops: ops})
 	}
+	// redirects answered by the backends; those that reproduce the known finding (a redirect within scheme and host
+	// that leaves the backend's url) in dedicated cases at the end
+	nrd, nrdf := e.scale(10, 80), e.scale(2, 6)
+	for i := 0; i < nrd+nrdf; i++ {
+		cases = append(cases, vc02RedirectCase(e, r.fork(), i >= nrd))
+	}
 	return cases
+}
+
+var vc02Kinds = []string{"auth", "room-join", "room-leave", "ping", "session-add", "session-remove"}
+
+// vc02OutOwner: the id of the backend an outgoing request to `base`/ocs/… is for (`-` = none).
+func vc02OutOwner(c *vc02Cfg, base string) string {
+	if c.compat != nil {
+		return c.compat.id
+	}
+	if t := vc02Owner(c, strings.TrimSuffix(base, "/")+vc02BackendPath); t != "?" {
+		return t[2:]
+	}
+	return "-"
+}
+
+func vc02OutOp(kind, id, base string, hops []vc02Hop) string {
+	op := fmt.Sprintf("out %s %s u=%s", kind, id, vEnc(strings.TrimSuffix(base, "/")+vc02BackendPath))
+	if len(hops) > 0 {
+		var hs []string
+		for _, h := range hops {
+			hs = append(hs, fmt.Sprintf("%d %s", h.code, h.loc))
+		}
+		op += " rd=" + vEnc(strings.Join(hs, ";"))
+	}
+	return op
+}
+
+// vc02Ref: a request that was valid when it was made.
+type vc02Ref struct {
+	label  string
+	signer vc02Backend
+	random string
+	body   []byte
+	sum    string
+}
+
+// vc02AfterReload: the reload op and what is tried after it — requests that were valid before, requests of the
+// backends as configured now (also signed with what was their secret, or the common secret, before), requests in the
+// name of sections that are no backends any more, outgoing requests to every url of the old and the new configuration.
+func vc02AfterReload(e *vEnv, rr *vRand, old, c *vc02Cfg, refs *[]vc02Ref, lab *int) []string {
+	ops := []string{c.opAs("reload")}
+	add := func(q vc02Req) { ops = append(ops, q.op()) }
+	stale := append([]vc02Ref{}, *refs...)
+	for len(stale) > 3 {
+		i := rr.intn(len(stale))
+		stale = append(stale[:i], stale[i+1:]...)
+	}
+	for _, rf := range stale {
+		q := vc02Req{label: rf.label, hdrTok: vc02Owner(c, rf.signer.url), hdrVal: rf.signer.url, random: rf.random, checksum: rf.sum,
+			body: rf.body, ct: "application/json", room: "room1", tag: "old-signature-after-reload"}
+		add(q)
+		if rr.chance(1, 2) {
+			q.hdrTok, q.hdrVal, q.tag = "-", "", "old-signature-after-reload-noheader"
+			add(q)
+		}
+	}
+	conf := c.configured()
+	for k := 1 + rr.intn(2); k > 0 && len(conf) > 0; k-- {
+		signer := conf[rr.intn(len(conf))]
+		random, body, label := vc02Hex(rr, 32), vc02Body(rr), fmt.Sprintf("L%d", *lab)
+		*lab++
+		sum := CalculateBackendChecksum(random, body, signer.secret)
+		ops = append(ops, fmt.Sprintf("sign %s %s %s %s", label, signer.id, vx([]byte(random)), vx(body)))
+		*refs = append(*refs, vc02Ref{label: label, signer: signer, random: random, body: body, sum: sum})
+		base := vc02Req{label: label, hdrTok: vc02Owner(c, signer.url), hdrVal: signer.url, random: random, checksum: sum, body: body,
+			ct: "application/json", room: "room1", tag: "valid-after-reload"}
+		add(base)
+		q := base
+		q.hdrTok, q.hdrVal, q.tag = "-", "", "valid-after-reload-noheader"
+		add(q)
+		for j := 0; j < 2; j++ {
+			q = base
+			m := append([]byte{}, body...)
+			m[rr.intn(len(m))] ^= 1 << uint(rr.intn(8))
+			q.body, q.tag = m, "flip-body"
+			add(q)
+		}
+		q = base
+		q.checksum, q.tag = vc02FlipHeader(rr, sum), "flip-checksum"
+		add(q)
+		for _, o := range conf {
+			if o.id == signer.id {
+				continue
+			}
+			q = base
+			q.hdrTok, q.hdrVal, q.tag = vc02Owner(c, o.url), o.url, "claims-other-backend"
+			add(q)
+			q = base
+			q.checksum, q.tag = CalculateBackendChecksum(random, body, o.secret), "other-secret"
+			add(q)
+		}
+		// signed with what was this backend's secret before the reload, with what was the common secret before
+		var before [][]byte
+		for _, ob := range old.configured() {
+			if ob.id == signer.id || strings.TrimSuffix(ob.url, "/") == strings.TrimSuffix(signer.url, "/") {
+				before = append(before, ob.secret)
+			}
+		}
+		if len(old.common) > 0 {
+			before = append(before, old.common)
+		}
+		for _, sec := range before {
+			if bytes.Equal(sec, signer.secret) {
+				continue
+			}
+			q = base
+			q.checksum, q.tag = CalculateBackendChecksum(random, body, sec), "rotated-out-secret"
+			add(q)
+			if rr.chance(1, 2) {
+				// without the header it is a request of whichever backend has that secret now, if any
+				q.label, q.hdrTok, q.hdrVal, q.tag = "-", "-", "", "rotated-out-secret-noheader"
+				add(q)
+			}
+		}
+	}
+	// in the name of what was a backend before the reload
+	for _, ob := range old.configured() {
+		random, body := vc02Hex(rr, 32), vc02Body(rr)
+		add(vc02Req{label: "-", hdrTok: vc02Owner(c, ob.url), hdrVal: ob.url, random: random,
+			checksum: CalculateBackendChecksum(random, body, ob.secret), body: body, ct: "application/json", room: "room1",
+			tag: "backend-as-before-reload"})
+	}
+	// a section that has no secret (any more)
+	for _, b := range c.backends {
+		if len(b.secret) == 0 {
+			random, body := vc02Hex(rr, 32), vc02Body(rr)
+			for _, sec := range [][]byte{nil, old.common} {
+				add(vc02Req{label: "-", hdrTok: vc02Owner(c, b.url), hdrVal: b.url, random: random,
+					checksum: CalculateBackendChecksum(random, body, sec), body: body, ct: "application/json", room: "room1",
+					tag: "section-without-secret"})
+			}
+		}
+	}
+	seen := map[string]bool{}
+	for _, b := range append(append([]vc02Backend{}, old.backends...), c.backends...) {
+		t := strings.TrimSuffix(b.url, "/")
+		if seen[t] {
+			continue
+		}
+		seen[t] = true
+		ops = append(ops, vc02OutOp(vc02Kinds[rr.intn(len(vc02Kinds))], vc02OutOwner(c, b.url), b.url, nil))
+	}
+	return ops
+}
+
+// vc02RedirectCase: backends on origins that differ in one respect only (port, host name, scheme), every backend answering a
+// request with redirects (301/302/303/307/308; one hop or two) to a url of itself, of every other backend, and to its own
+// path on every other origin.  finding: two backends on one origin, redirects to the other's url and to urls of no backend.
+func vc02RedirectCase(e *vEnv, rr *vRand, finding bool) vCase {
+	layouts := [][]string{
+		{"http://H1/one/", "http://H2/one/", "http://N1/one/"},    // other port; other name
+		{"http://H1/one/", "https://H1/one/", "http://H2/two/"},   // other scheme on the same host and port
+		{"https://H1/", "https://H2/", "http://H1/"},              // roots
+		{"http://H1/one/", "http://N2/one/", "https://N1/one/"},   // other name and port; other name and scheme
+		{"https://N1/nc/", "https://N2/nc/", "https://H1/nc/"},
+		{"http://H2/one", "http://H1/one", "https://H2/one"},
+	}
+	if finding {
+		layouts = [][]string{{"http://H1/one/", "http://H1/two/"}, {"https://H2/nc/", "https://H2/nc2"}, {"http://N1/a/b/", "http://N1/a/c/"}}
+	}
+	layout := layouts[rr.intn(len(layouts))]
+	c := &vc02Cfg{mode: "backends", pool: layout}
+	n := 2 + rr.intn(len(layout)-1)
+	for i := 0; i < n; i++ {
+		sec := vc02Secret(rr)
+		if i > 0 && rr.chance(1, 6) {
+			sec = c.backends[0].secret
+		}
+		c.backends = append(c.backends, vc02Backend{id: fmt.Sprintf("b%d", i+1), url: layout[i], secret: sec})
+	}
+	if rr.chance(1, 3) {
+		c.mode = "etcd"
+	}
+	ops := []string{c.op()}
+	codes := []int{301, 302, 303, 307, 308}
+	origins := []string{"http://H1", "http://H2", "http://N1", "http://N2", "https://H1", "https://H2", "https://N1", "https://N2"}
+	for _, b := range c.backends {
+		t := strings.TrimSuffix(b.url, "/")
+		i := strings.Index(t, "://")
+		path := ""
+		if j := strings.IndexByte(t[i+3:], '/'); j >= 0 {
+			path = t[i+3+j:]
+		}
+		origin := t[:len(t)-len(path)]
+		within := []string{t + "/index.php" + vc02BackendPath, t + vc02BackendPath + "/v2"}
+		var away []string
+		if finding {
+			// same scheme and host, outside the backend's url
+			away = append(away, origin+path+"x"+vc02BackendPath, origin+"/other"+vc02BackendPath)
+			if path != "" {
+				away = append(away, origin+vc02BackendPath)
+			}
+			for _, o := range c.backends {
+				if o.id != b.id {
+					away = append(away, strings.TrimSuffix(o.url, "/")+vc02BackendPath)
+				}
+			}
+		} else {
+			for _, o := range c.backends {
+				if o.id != b.id {
+					away = append(away, strings.TrimSuffix(o.url, "/")+vc02BackendPath)
+				}
+			}
+			for _, og := range origins {
+				if og != origin {
+					away = append(away, og+path+vc02BackendPath)
+				}
+			}
+		}
+		pick := func() int { return codes[rr.intn(len(codes))] }
+		emit := func(hops []vc02Hop) {
+			ops = append(ops, vc02OutOp(vc02Kinds[rr.intn(len(vc02Kinds))], vc02OutOwner(c, b.url), b.url, hops))
+		}
+		for _, loc := range append(append([]string{}, within...), away...) {
+			if e.thorough() || finding {
+				for _, code := range codes {
+					emit([]vc02Hop{{code, loc}})
+				}
+			} else {
+				emit([]vc02Hop{{pick(), loc}})
+				emit([]vc02Hop{{[]int{307, 308}[rr.intn(2)], loc}})
+			}
+		}
+		// two hops: within the backend first, then away; and twice within
+		for _, loc := range away {
+			if e.thorough() || finding || rr.chance(1, 3) {
+				emit([]vc02Hop{{pick(), within[rr.intn(2)]}, {pick(), loc}})
+				emit([]vc02Hop{{[]int{307, 308}[rr.intn(2)], within[rr.intn(2)]}, {[]int{307, 308}[rr.intn(2)], loc}})
+			}
+		}
+		emit([]vc02Hop{{pick(), within[0]}, {pick(), within[1]}})
+		emit([]vc02Hop{{307, within[0]}, {308, within[1]}, {pick(), within[0]}})
+	}
+	return vCase{Ops: ops}
 }
 
 // vc02HeaderLegal: can these bytes be appended to a header value without the request being
@@ -840,8 +1432,15 @@ func vc02HeaderLegal(b []byte) bool {
 
 // ---------- execution ----------
 
-func vc02ParseCfg(f []string) *vc02Cfg {
+func vc02ParseCfg(f []string, cs string) *vc02Cfg {
 	c := &vc02Cfg{}
+	if cs != "" {
+		b, ok := vunx(cs)
+		if !ok {
+			return nil
+		}
+		c.common = b
+	}
 	var urls = map[string]string{}
 	for _, t := range f {
 		if strings.HasPrefix(t, "u=") {
@@ -860,7 +1459,7 @@ func vc02ParseCfg(f []string) *vc02Cfg {
 			return vc02Backend{}, false
 		}
 		s, ok := vunx(tok[i+1:])
-		return vc02Backend{id: tok[:i], secret: s, url: urls[tok[:i]]}, ok
+		return vc02Backend{id: tok[:i], secret: s, url: urls[tok[:i]], common: len(s) == 0}, ok
 	}
 	if len(f) < 3 {
 		return nil
@@ -884,7 +1483,13 @@ func vc02ParseCfg(f []string) *vc02Cfg {
 	if c.mode == "" {
 		return nil
 	}
-	return c
+	if c.mode != "backends" {
+		c.common = nil
+		for i := range c.backends {
+			c.backends[i].common = false
+		}
+	}
+	return c.fix()
 }
 
 func (w *vc02World) backendById(id string) *vc02Backend {
@@ -928,7 +1533,10 @@ func vC02Exec(t *testing.T, c *vCase) {
 		for _, tok := range strings.Fields(line) {
 			switch {
 			case strings.HasPrefix(tok, "#"):
-			case strings.HasPrefix(tok, "u="), strings.HasPrefix(tok, "wr="), strings.HasPrefix(tok, "wc="), strings.HasPrefix(tok, "ct="):
+			case strings.HasPrefix(tok, "cs="):
+				kv["cs"] = tok[3:]
+			case strings.HasPrefix(tok, "u="), strings.HasPrefix(tok, "wr="), strings.HasPrefix(tok, "wc="), strings.HasPrefix(tok, "ct="),
+				strings.HasPrefix(tok, "rd="):
 				i := strings.IndexByte(tok, '=')
 				kv[tok[:i]] = vDec(tok[i+1:])
 				if tok[:i] == "u" {
@@ -941,11 +1549,16 @@ func vC02Exec(t *testing.T, c *vCase) {
 		out := "bad-op"
 		switch {
 		case len(f) >= 3 && f[0] == "cfg":
-			if cfg := vc02ParseCfg(f); cfg != nil {
+			if cfg := vc02ParseCfg(f, kv["cs"]); cfg != nil {
 				if w != nil {
 					w.close()
 				}
 				w = newVC02World(cfg)
+				out = "-"
+			}
+		case len(f) >= 3 && f[0] == "reload" && w != nil:
+			if cfg := vc02ParseCfg(f, kv["cs"]); cfg != nil && cfg.mode == w.cfg.mode && cfg.byUrl() && cfg.compat == nil {
+				w.reload(cfg)
 				out = "-"
 			}
 		case len(f) == 5 && f[0] == "sign" && w != nil:
@@ -1035,23 +1648,31 @@ func vC02Exec(t *testing.T, c *vCase) {
 			}
 			out = fmt.Sprintf("%d t%d %s%s", status, tn, es, lookupNote)
 		case (len(f) == 3 || len(f) == 4) && f[0] == "out" && w != nil:
-			for _, fk := range w.fakes {
-				fk.take()
-			}
+			w.take()
 			var target string
 			if tu := kv["u"]; tu != "" {
 				target = tu // the url the request goes to, literally
-			} else if b := w.backendById(f[2]); b != nil {
-				if w.cfg.compat != nil {
-					target = "http://H1/nextcloud" + vc02BackendPath
-				} else {
-					target = strings.TrimSuffix(b.url, "/") + vc02BackendPath
-				}
 			} else {
 				target = "http://H3.invalid/x" + vc02BackendPath
 			}
 			u, err := url.Parse(w.subst(target))
 			if err != nil {
+				break
+			}
+			var hops []vc02Hop
+			badHops := false
+			if rd := kv["rd"]; rd != "" {
+				for _, h := range strings.Split(rd, ";") {
+					p := strings.Split(h, " ")
+					code, err := strconv.Atoi(p[0])
+					if len(p) != 2 || err != nil || code < 0 {
+						badHops = true
+						break
+					}
+					hops = append(hops, vc02Hop{code, p[1]})
+				}
+			}
+			if badHops {
 				break
 			}
 			var request *BackendClientRequest
@@ -1073,21 +1694,28 @@ func vC02Exec(t *testing.T, c *vCase) {
 			if request == nil {
 				break
 			}
+			w.mu.Lock()
+			w.script = hops
+			w.mu.Unlock()
 			ctx, cancel := context.WithTimeout(context.Background(), 10*time.Second)
 			var response json.RawMessage
 			w.hub.backend.PerformJSONRequest(ctx, u, request, &response) // nolint
 			cancel()
-			var got []vc02Received
-			for _, fk := range w.fakes {
-				got = append(got, fk.take()...)
-			}
-			switch len(got) {
-			case 0:
+			w.mu.Lock()
+			w.script = nil
+			w.mu.Unlock()
+			got := w.take()
+			if len(got) == 0 {
 				out = "none"
-			case 1:
-				out = "out " + vx([]byte(got[0].random)) + " " + vx(got[0].body) + " " + vx([]byte(got[0].checksum))
-			default:
-				out = fmt.Sprintf("sent-%d-requests", len(got))
+			} else {
+				out = "out"
+				for _, g := range got {
+					m := "G"
+					if g.post {
+						m = "P"
+					}
+					out += " " + vEnc(g.url) + " " + m + " " + vx([]byte(g.random)) + " " + vx(g.body) + " " + vx([]byte(g.checksum))
+				}
 			}
 		}
 		c.Impl = append(c.Impl, out)
